@@ -350,7 +350,7 @@ func (m *mutAnalysis) call(fn *ssa.Function, c ssa.CallInstruction, v ssa.Value,
 			return
 		}
 		if pos == 0 {
-			bad(in, "%s of a sync.Map reachable from the receiver: state shared with every logger that holds the same map (a copy of the struct copies the pointer)", strings.TrimPrefix(name, "(*sync.Map)."))
+			bad(in, "%s of a sync.Map reachable from the receiver: state shared with every object that holds the same map (a copy of the struct copies the pointer)", strings.TrimPrefix(name, "(*sync.Map)."))
 		}
 		return
 	}
@@ -535,6 +535,30 @@ func runC03(p *core.Prog, r *core.Report) {
 			// a handler may ignore With attributes only if it ignores all attributes
 			r.Fail("C03-R4", h.Name+": attribute emitter in WithAttrs", p.FuncPos(with), "WithAttrs does not render attributes although Handle does")
 			continue
+		}
+		// every attribute given to With is rendered: the emitter call in the loop over the attributes is reached on every
+		// iteration (a filter here and not at the call site makes With attributes differ from call-site attributes)
+		{
+			var skipped []string
+			for _, e := range emW {
+				if e.Parent() != with {
+					continue
+				}
+				h0 := sx.InnermostLoop(with, e.Block())
+				if h0 == nil || len(h0.Instrs) == 0 {
+					continue
+				}
+				for be := range sx.BackEdgesTo(h0) {
+					latch := be.From
+					if latch == e.Block() || len(latch.Instrs) == 0 {
+						continue
+					}
+					if sx.ReachInstr(with, h0.Instrs[0], latch.Instrs[len(latch.Instrs)-1], sx.Cut{Instrs: map[ssa.Instruction]bool{e: true}}) {
+						skipped = append(skipped, "the emitter call at "+p.Pos(e.Pos())+" is skipped on some iterations")
+					}
+				}
+			}
+			r.Check(len(skipped) == 0, "C03-R4", h.Name+": WithAttrs renders every attribute it is given", p.FuncPos(with), "the emitter call is reached on every iteration of the attribute loop", strings.Join(uniq(skipped), "; ")+": an attribute dropped by With would still be printed when passed at the call site")
 		}
 		sigW, sigH := emitterSig(emW), emitterSig(emH)
 		r.Check(sigW == sigH, "C03-R4", h.Name+": With attributes are rendered like call-site attributes", p.FuncPos(with), "same emitter and state arguments: "+short(sigH), "WithAttrs renders with "+short(sigW)+" but Handle renders the record's own attributes with "+short(sigH))
